@@ -138,11 +138,15 @@ def useq_pair(rnd, out, N, tag, sym=False):
     for F in ((EqPathParallelSpecFinder,) if alias else (ParallelSpecFinder, EqPathParallelSpecFinder)):
         inp = dict(desc, finder=F.__name__)
         ss = []
+        # half of the pairs are handed to the finder unexpanded, with a pack whose unions are initial strategies: the finder
+        # then expands them itself, and the level in which a specification appears may be the one in which the queue runs dry
+        fresh = random.Random(f"{tag}|{F.__name__}|{sorted(useq.GRAMMARS[g1].items())!r}").random() < 0.5
+        inp["fresh"] = fresh
         for g in (g1, g2):
-            s = CombinatorialSpecificationSearcher(useq.T(g, "R"), useq.pack())
+            s = CombinatorialSpecificationSearcher(useq.T(g, "R"), useq.pack(split=fresh))
             specrun.quiet()
             try:
-                for _ in range(50):
+                for _ in range(0 if fresh else 50):
                     s.do_level()
             except NoMoreClassesToExpandError:
                 pass
